@@ -1,10 +1,26 @@
 #!/bin/bash
 # usage: tools/matrix.sh      every hand mutant and every seeded change against the quick tier of the check(s) recorded for
-# it (mutants: by file name; seeded: meta.json caught_by_quick); one verdict line each.  ~1 h on 16 cores.
+# it (mutants: by file name, as in selftest.sh; seeded: meta.json caught_by_quick); one verdict line each.
+# JOBS (default 3) runs in parallel; about an hour on 16 cores.
 cd "$(dirname "$0")/.."
-tools/selftest.sh
+export VERIF_SHRINK_S=${VERIF_SHRINK_S:-4}   # verdicts only: a short shrink budget
+declare -A MAP=( [F1]="C03 C01" [F2]="C01" [F3]="C04" [F4]="C04" [F5]="C05" [F6]="C05" [F7]="C12" [F8]="C11" [F9]="C11"
+  [F10]="C11" [F11]="C07" [F12]="C08" [F13]="C08" [F14]="C08" [F15]="C10" [F16]="C10" [F17]="C17" [F18]="C19" [F19]="C13" [F20]="C12" [K4]="C10" )
+jobs=$(mktemp)
+for p in mutants/*.patch; do
+  b=$(basename "$p" .patch)
+  if [[ $b =~ ^m_c([0-9][0-9])_ ]]; then ids="C${BASH_REMATCH[1]}"
+  elif [[ $b =~ ^revert_([FK][0-9]+)_ ]]; then ids="${MAP[${BASH_REMATCH[1]}]}"
+  elif [[ $b == m_sort_* ]]; then ids="C01 C02 C13"
+  else continue; fi
+  echo "$p $b $ids" >> "$jobs"
+done
 for d in seeded/*/; do
   n=$(basename "$d")
-  ids=$(/venv/bin/python -c "import json,sys; print(' '.join(json.load(open('$d/meta.json'))['caught_by_quick']))" 2>/dev/null)
-  tools/runmut.sh "$d/patch.diff" $ids 2>&1 | grep -E "^(KILLED|SURVIVED|ERROR|PATCH-FAILED)" | sed "s#patch.diff#seeded/$n#" | cut -c1-200
+  ids=$(/venv/bin/python -c "import json; print(' '.join(json.load(open('$d/meta.json'))['caught_by_quick']))" 2>/dev/null)
+  echo "$d/patch.diff seeded/$n $ids" >> "$jobs"
 done
+one() { p=$1; name=$2; shift 2; tools/runmut.sh "$p" "$@" 2>&1 | grep -E "^(KILLED|SURVIVED|ERROR|PATCH-FAILED)" | sed "s#$(basename "$p")#$name#" | cut -c1-200; }
+export -f one
+xargs -P "${JOBS:-3}" -L 1 bash -c 'one "$@"' _ < "$jobs"
+rm -f "$jobs"
